@@ -34,6 +34,12 @@ pub fn gen_dict_program(t: &mut Tape) -> DictOut {
         Lit::Mysterious,
         Lit::Str("0".into()),
         Lit::Str("k2".into()),
+        // long keys (fixed-size key buffers, truncated sort keys): they differ only at the far end
+        Lit::Str(format!("{}a", "k".repeat(70))),
+        Lit::Str(format!("{}b", "k".repeat(70))),
+        Lit::Str(format!("{}c", "k".repeat(130))),
+        Lit::Str(format!("{}x", "ü".repeat(40))),
+        Lit::Str(format!("{}y", "ü".repeat(40))),
     ];
     let nk = 2 + t.weighted(&[28, 26, 16, 10, 6, 3, 3, 3, 3, 2]);
     while keys.len() < nk {
